@@ -280,7 +280,7 @@ inductive Viol
   | undefinedType (name : Name)
   | privateAcross (file name : Name)
   | serde (item target : Name) (ser viaMap viaArr viaResp : Bool)
-  | bodyCap (item target : Name) (ser viaMap viaArr : Bool)
+  | bodyCap (item target : Name) (ser viaMap viaArr viaWrap : Bool)
   | headerOptMismatch (item : Name)
   | serdeAsMismatch (item member : Name)
   | nestedNoValidate (item target : Name)
@@ -342,9 +342,10 @@ of `axum::Json<..>` / `Form<..>` (server: needs Deserialize) -/
 def bodyViols (m : Mod) : List Viol :=
   let server := m.mode == "server-mod".toList
   m.types.flatMap fun it =>
-    if !(it.kind == "struct".toList && it.reqStruct) then [] else
+    -- `generate types` writes no client / server half: nothing sends or extracts the body there
+    if !(it.kind == "struct".toList && it.reqStruct) || m.mode == "types".toList then [] else
     (it.fields.filter (·.name == "body".toList)).flatMap fun fd => fd.refs.flatMap fun r =>
-      (incapable m (fun x => if server then x.de else x.ser) 4 r.to r.map r.arr).map fun (t, mp, ar) => Viol.bodyCap it.name t (!server) mp ar
+      (incapable m (fun x => if server then x.de else x.ser) 4 r.to r.map r.arr).map fun (t, mp, ar) => Viol.bodyCap it.name t (!server) mp ar r.wrap
 
 def nameViols (m : Mod) : List Viol :=
   (m.mentions.flatMap fun (file, names) =>
@@ -412,7 +413,10 @@ def classOf (m : Mod) : Viol → Option String
       -- a response variant's payload type is rebuilt from its TEXT (`TypeRef::new(schema.to_rust_type())` in responses.rs):
       -- `Option<T>` / `Vec<T>` / `EventStream<T>` are opaque atoms of the response enum's node
       else if viaResp then some "KnownResponseWrapperPayload" else none
-  | .bodyCap _ _ _ viaMap viaArr => if viaMap then some "KnownSerdeMapEdge" else if viaArr then some "KnownSerdeNestedArrayEdge" else none
+  | .bodyCap _ _ _ viaMap viaArr viaWrap =>
+      if viaMap then some "KnownSerdeMapEdge" else if viaArr then some "KnownSerdeNestedArrayEdge"
+      -- a nullable-wrapped body `oneOf/anyOf [$ref T, null]` (`Option<T>`): T is not recorded as a request type
+      else if viaWrap then some "KnownRequestWrapperBody" else none
   | .headerOptMismatch _ => some "KnownRequiredHeaderDefault"
   | .lengthNeedsSer _ _ => some "KnownLengthNeedsSerialize"
   | .dupParam _ => some "KnownRequestParamClash"
@@ -443,7 +447,7 @@ def explains : Viol → RErr → Bool
   | .undefinedType n, e => codeIn e.code ["E0425", "E0412", "E0433", "E0422"] && e.name == n
   | .privateAcross f n, e => codeIn e.code ["E0425", "E0412", "E0433", "E0422", "E0603"] && e.file == f && e.name == n
   | .serdeAsMismatch it _, e => e.ikind == "struct".toList && e.iname == it && codeIn e.code ["E0308", "E0277", "E0271"]
-  | .bodyCap it tgt ser _ _, e =>
+  | .bodyCap it tgt ser _ _ _, e =>
       (codeIn e.code ["E0277"] && e.name == tgt && e.trait == (if ser then "Serialize".toList else "Deserialize".toList) &&
         (e.ikind == "impl".toList || e.ikind == "fn".toList)) ||
       -- server: the handler whose body extractor cannot decode is no `Handler` (reported in `router`, naming the handler `op_x` of `OpXRequest`)
